@@ -35,6 +35,10 @@ package stmt
 //@ uf docParams([]byte) [][]byte
 //@ uf docOKCall([]byte) bool
 //@ uf docAlias([]byte) string
+//@ uf docLeft([]byte) []byte
+//@ uf docRight([]byte) []byte
+//@ uf docOp([]byte) int
+//@ uf docOKBinary([]byte) bool
 //@ uf docExpr([]byte) []byte
 //@ uf exprOK([]byte) bool
 //@ func Marshal
@@ -52,6 +56,9 @@ package stmt
 //@   modifies cast(v, "*innerQuery").Condition when typeis(v, "*innerQuery"), cast(v, "*innerQuery").Having when typeis(v, "*innerQuery"), cast(v, "*innerQuery").SelectItems when typeis(v, "*innerQuery"), cast(v, "*innerQuery").OrderByItems when typeis(v, "*innerQuery"), cast(v, "*innerQuery").GroupBy when typeis(v, "*innerQuery"), cast(v, "*innerQuery").MetricName when typeis(v, "*innerQuery"), cast(v, "*innerQuery").Namespace when typeis(v, "*innerQuery"), cast(v, "*innerQuery").Limit when typeis(v, "*innerQuery"), cast(v, "*innerQuery").Explain when typeis(v, "*innerQuery"), cast(v, "*innerQuery").AllFields when typeis(v, "*innerQuery"), cast(v, "*innerQuery").IntervalRatio when typeis(v, "*innerQuery"), cast(v, "*innerQuery").AutoGroupByTime when typeis(v, "*innerQuery"), cast(v, "*innerQuery").TimeRange when typeis(v, "*innerQuery"), cast(v, "*innerQuery").Interval when typeis(v, "*innerQuery"), cast(v, "*innerQuery").StorageInterval when typeis(v, "*innerQuery"), *cast(v, "*exprData") when typeis(v, "*exprData"), *cast(v, "*innerCallExpr") when typeis(v, "*innerCallExpr"), *cast(v, "*innerSelectItem") when typeis(v, "*innerSelectItem"), *cast(v, "*innerOrderByExpr") when typeis(v, "*innerOrderByExpr"), *cast(v, "*innerBinaryExpr") when typeis(v, "*innerBinaryExpr"), *cast(v, "*RegexExpr") when typeis(v, "*RegexExpr"), *cast(v, "*LikeExpr") when typeis(v, "*LikeExpr"), *cast(v, "*InExpr") when typeis(v, "*InExpr"), *cast(v, "*EqualsExpr") when typeis(v, "*EqualsExpr"), *cast(v, "*NumberLiteral") when typeis(v, "*NumberLiteral"), *cast(v, "*FieldExpr") when typeis(v, "*FieldExpr")
 //@   ensures (result == nil && typeis(v, "*innerQuery")) ==> (cast(v, "*innerQuery").Condition == docCondition(data) && cast(v, "*innerQuery").Having == docHaving(data) && cast(v, "*innerQuery").SelectItems == docSelect(data) && cast(v, "*innerQuery").OrderByItems == docOrderBy(data) && cast(v, "*innerQuery").GroupBy == docGroupBy(data) && cast(v, "*innerQuery").MetricName == docMetricName(data) && cast(v, "*innerQuery").Namespace == docNamespace(data) && cast(v, "*innerQuery").Limit == docLimit(data) && cast(v, "*innerQuery").Explain == docExplain(data) && cast(v, "*innerQuery").AllFields == docAllFields(data) && cast(v, "*innerQuery").IntervalRatio == docIntervalRatio(data) && cast(v, "*innerQuery").AutoGroupByTime == docAutoGroupByTime(data) && cast(v, "*innerQuery").TimeRange.Start == docRangeStart(data) && cast(v, "*innerQuery").TimeRange.End == docRangeEnd(data) && int64(cast(v, "*innerQuery").Interval) == docInterval(data) && int64(cast(v, "*innerQuery").StorageInterval) == docStorageInterval(data))
 //@   ensures (result == nil && typeis(v, "*exprData")) ==> cast(v, "*exprData").Type == docType(data)
+//@   ensures (result == nil && typeis(v, "*exprData")) ==> cast(v, "*exprData").Expr == docExpr(data)
+//@   ensures (result == nil && typeis(v, "*innerBinaryExpr")) ==> (int(cast(v, "*innerBinaryExpr").Operator) == docOp(data) && cast(v, "*innerBinaryExpr").Left == docLeft(data) && cast(v, "*innerBinaryExpr").Right == docRight(data))
+//@   ensures typeis(v, "*innerBinaryExpr") ==> (result == nil) == docOKBinary(data)
 //@   ensures (result == nil && typeis(v, "*innerCallExpr")) ==> (int(cast(v, "*innerCallExpr").FuncType) == docFuncType(data) && cast(v, "*innerCallExpr").Params == docParams(data))
 //@   ensures typeis(v, "*innerCallExpr") ==> (result == nil) == docOKCall(data)
 //@   ensures (result == nil && typeis(v, "*innerSelectItem")) ==> (cast(v, "*innerSelectItem").Alias == docAlias(data) && cast(v, "*innerSelectItem").exprData.Expr == docExpr(data))
@@ -129,10 +136,13 @@ package stmt
 //@   prop C17
 //@   modifies *
 //@   ensures result1 == nil ==> typeis(result0, "*BinaryExpr")
+//@   ensures[a_binary_expression_is_rebuilt_with_its_operator_and_both_operands] result1 == nil ==> (int(cast(result0, "*BinaryExpr").Operator) == docOp(value) && cast(result0, "*BinaryExpr").Left == cast(exprOf(docLeft(value)), "Expr") && cast(result0, "*BinaryExpr").Right == cast(exprOf(docRight(value)), "Expr"))
+//@   ensures[decoding_fails_only_if_the_document_or_an_operand_cannot_be_decoded] result1 != nil ==> (!docOKBinary(value) || !exprOK(docLeft(value)) || !exprOK(docRight(value)))
 //@ end
 //@ func Unmarshal#kinds
 //@   prop C17
 //@   modifies *
 //@   ensures[every_tag_rebuilds_its_own_kind] result1 == nil ==> ((docType(value) == "regex" ==> typeis(result0, "*RegexExpr")) && (docType(value) == "like" ==> typeis(result0, "*LikeExpr")) && (docType(value) == "in" ==> typeis(result0, "*InExpr")) && (docType(value) == "equals" ==> typeis(result0, "*EqualsExpr")) && (docType(value) == "number" ==> typeis(result0, "*NumberLiteral")) && (docType(value) == "field" ==> typeis(result0, "*FieldExpr")) && (docType(value) == "not" ==> typeis(result0, "*NotExpr")) && (docType(value) == "paren" ==> typeis(result0, "*ParenExpr")) && (docType(value) == "selectItem" ==> typeis(result0, "*SelectItem")) && (docType(value) == "orderBy" ==> typeis(result0, "*OrderByExpr")) && (docType(value) == "call" ==> typeis(result0, "*CallExpr")) && (docType(value) == "binary" ==> typeis(result0, "*BinaryExpr")))
+//@   ensures[a_parenthesis_is_rebuilt_around_exactly_the_inner_expression] (result1 == nil && docType(value) == "paren") ==> (typeis(result0, "*ParenExpr") && cast(result0, "*ParenExpr").Expr == cast(exprOf(docExpr(value)), "Expr"))
 //@   ensures[unknown_tags_are_rejected] (docType(value) != "regex" && docType(value) != "like" && docType(value) != "in" && docType(value) != "equals" && docType(value) != "number" && docType(value) != "field" && docType(value) != "not" && docType(value) != "paren" && docType(value) != "selectItem" && docType(value) != "orderBy" && docType(value) != "call" && docType(value) != "binary") ==> result1 != nil
 //@ end
